@@ -175,8 +175,8 @@ Qed.
 Lemma u16_small : forall n, (n < 65536)%N -> u16 n = n.
 Proof. intros n H. unfold u16. now apply N.mod_small. Qed.
 
-Lemma fields_roundtrip : forall i, representable i ->
-  exists i', to_ice (from_ice i) = Ok i' /\ from_ice i' = from_ice i.
+Lemma fields_roundtrip_strong : forall i, representable i ->
+  exists i', to_ice (from_ice i) = Ok i' /\ from_ice i' = from_ice i /\ i_exts i' = i_exts i.
 Proof.
   intros i (Hok & Hnd & Hnt & Hhost & Hport & Hrel).
   unfold to_ice. cbn [from_ice w_ext w_typ w_protocol w_foundation w_component w_priority w_address w_port
@@ -224,6 +224,7 @@ Proof.
       rewrite add_all_fresh; [|cbn [i_exts keys map app]; exact Hnd|exact Hfresh].
       reflexivity.
   - (* the getters agree *)
+    split; [|reflexivity].
     unfold from_ice, i_extensions.
     cbn [with_exts with_tcp base i_type i_net i_foundation i_component i_priority i_address i_port i_related
          i_tcp i_exts].
@@ -239,6 +240,12 @@ Proof.
     + destruct (i_related i) as [[a p]|]; [|reflexivity].
       rewrite (u16_small (u16 p)) by (rewrite u16_small; [|eapply Hrel; reflexivity]; eapply Hrel; reflexivity).
       reflexivity.
+Qed.
+
+Lemma fields_roundtrip : forall i, representable i ->
+  exists i', to_ice (from_ice i) = Ok i' /\ from_ice i' = from_ice i.
+Proof.
+  intros i H. destruct (fields_roundtrip_strong i H) as (i' & H1 & H2 & _). exists i'. auto.
 Qed.
 
 (* a repeated key does not survive: the witness of the known finding *)
@@ -326,3 +333,43 @@ Proof.
   - reflexivity.
   - intros a p H. discriminate.
 Qed.
+
+(* ---- the ufrag filter after the signalling round trip.  [wire] stands for
+   pion/ice's UnmarshalCandidate (Marshal i); the filter reads the candidate
+   through GetExtension, so that getter's preservation is the premise. *)
+Section FilterRoundTrip.
+  Variable wire : ice_cand -> ice_cand.
+  Hypothesis wire_get_extension : forall i k, get_ext k (i_exts (wire i)) = get_ext k (i_exts i).
+
+  Lemma filter_wire : forall d i, add_ice_candidate d (wire i) = add_ice_candidate d i.
+  Proof.
+    intros [d|] i; [|reflexivity]. unfold add_ice_candidate. now rewrite wire_get_extension.
+  Qed.
+
+  Lemma filter_roundtrip : forall d i, representable i ->
+    exists i', to_ice (from_ice i) = Ok i' /\
+               add_ice_candidate d (wire i') = add_ice_candidate d i.
+  Proof.
+    intros d i H. destruct (fields_roundtrip_strong i H) as (i' & H1 & _ & H3).
+    exists i'. split; [exact H1|]. rewrite filter_wire.
+    destruct d as [d|]; [|reflexivity]. unfold add_ice_candidate. now rewrite H3.
+  Qed.
+
+  (* spelled out for candidates that carry a ufrag *)
+  Lemma filter_roundtrip_ufrag : forall d i u, representable i ->
+    get_ext (s "ufrag") (i_exts i) = Some u ->
+    exists i', to_ice (from_ice i) = Ok i' /\
+      (add_ice_candidate (Some d) (wire i') = Dropped <-> d_session d <> Some u /\ ~ In (Some u) (d_media d)) /\
+      (add_ice_candidate (Some d) (wire i') = Forwarded <-> (d_session d = Some u \/ In (Some u) (d_media d))).
+  Proof.
+    intros d i u H Hu. destruct (filter_roundtrip (Some d) i H) as (i' & H1 & H2).
+    exists i'. split; [exact H1|]. rewrite H2. unfold add_ice_candidate. rewrite Hu.
+    pose proof (contains_ufrag_spec d u) as Hc.
+    destruct (contains_ufrag d u) eqn:E.
+    - assert (Hin : d_session d = Some u \/ In (Some u) (d_media d)) by (apply Hc; reflexivity).
+      split; split; try discriminate; try tauto; intros [Ha Hb]; destruct Hin; contradiction.
+    - assert (Hnin : ~ (d_session d = Some u \/ In (Some u) (d_media d))).
+      { intros Hx. apply Hc in Hx. discriminate. }
+      split; split; try discriminate; try tauto.
+  Qed.
+End FilterRoundTrip.
